@@ -9,7 +9,7 @@
 (*   Io:  every idle session whose timeout has passed is deleted            *)
 (***************************************************************************)
 EXTENDS Sessions, TLC
-CONSTANTS Peers, MaxTime, Timeout, MaxIdle, MaxSess, HolderKinds
+CONSTANTS Peers, Streams, MaxTime, Timeout, MaxIdle, MaxSess, HolderKinds
 VARIABLES st, now, nextId, hist
 vars == <<st, now, nextId, hist>>
 
@@ -18,7 +18,7 @@ Init == st = InitSess(Timeout, MaxIdle) /\ now = 0 /\ nextId = 1 /\ hist = << >>
 Free(s0, s) == [Del_do(s0, s) EXCEPT !.objs = @ \ {s}]
 Rx(p) ==
   /\ IF p \in DOMAIN st.map
-     THEN st' = Touch_do(st, st.map[p], now) /\ UNCHANGED <<nextId, hist>>
+     THEN st.map[p] \notin st.closed /\ st' = Touch_do(st, st.map[p], now) /\ UNCHANGED <<nextId, hist>>      \* nothing arrives on a closed connection
      ELSE /\ nextId <= MaxSess
           /\ LET evict == st.maxidle > 0 /\ Cardinality(IdleSet(st)) >= st.maxidle
                  victim == CHOOSE v \in IdleSet(st) : OldestIdle(st, v)
@@ -34,7 +34,10 @@ Hold(s, h) == s \in Live(st) /\ h \notin Holders(st, s) /\ st' = Hold_do(st, s, 
 Unhold(s, h) == s \in Live(st) /\ h \in Holders(st, s) /\ st' = Unhold_do(st, s, h) /\ UNCHANGED <<now, nextId, hist>>
 Tick == now < MaxTime /\ now' = now + 1 /\ UNCHANGED <<st, nextId, hist>>
 \* one reclamation inside the I/O step (the step repeats it until nothing is overdue)
-Reclaim(s) == /\ Idle(st, s) /\ Overdue(st, s, now)
+\* the peer of a stream session goes away (Streams: the peers that use a stream transport)
+Disconnect(p) == /\ p \in Streams /\ p \in DOMAIN st.map /\ st.map[p] \notin st.closed
+                 /\ st' = Disc_do(st, st.map[p]) /\ UNCHANGED <<now, nextId, hist>>
+Reclaim(s) == /\ Idle(st, s) /\ (Overdue(st, s, now) \/ s \in st.closed)
               /\ Del_ok(st, s, now)
               /\ st' = Free(st, s)
               /\ hist' = Append(hist, [del |-> s, cause |-> DelCause(st, s, now)])
@@ -44,7 +47,8 @@ AHold == \E s \in Live(st), h \in HolderKinds : Hold(s, h)
 AUnhold == \E s \in Live(st), h \in HolderKinds : Unhold(s, h)
 ATick == Tick
 AReclaim == \E s \in Live(st) : Reclaim(s)
-Next == ARx \/ AHold \/ AUnhold \/ ATick \/ AReclaim
+ADisconnect == \E p \in Peers : Disconnect(p)
+Next == ARx \/ AHold \/ AUnhold \/ ATick \/ AReclaim \/ ADisconnect
 Spec == Init /\ [][Next]_vars
 FairSpec == Spec /\ WF_vars(AReclaim) /\ WF_vars(ATick)
 
@@ -53,10 +57,12 @@ HeldAreLiveI == HeldAreLive(st)
 LiveAreObjectsI == LiveAreObjects(st)
 DeadOnceI == DeadOnce(st) /\ \A s \in st.dead : s \notin Live(st) /\ s \notin st.objs
 \* nothing that is held ever goes away: every deletion so far had a permitted cause
-CausesI == \A i \in 1..Len(hist) : hist[i].cause \in {"timeout", "evicted"}
+CausesI == \A i \in 1..Len(hist) : hist[i].cause \in {"timeout", "evicted", "closed"}
+\* a closed session is live (until reclaimed) and no dead one is closed
+ClosedAreLiveI == st.closed \subseteq Live(st)
 \* a session is never deleted twice and sessions of different peers differ
 NoReuseI == \A p \in DOMAIN st.map : st.map[p] \notin st.dead
 \* an idle session whose timeout has passed does not stay that way (the I/O step is the fair agent)
-EventuallyReclaimedP == \A s \in 1..MaxSess : [](s \in IdleSet(st) /\ Overdue(st, s, now) => <>(s \notin IdleSet(st) \/ ~Overdue(st, s, now)))
+EventuallyReclaimedP == \A s \in 1..MaxSess : [](s \in IdleSet(st) /\ (Overdue(st, s, now) \/ s \in st.closed) => <>(s \notin IdleSet(st) \/ (~Overdue(st, s, now) /\ s \notin st.closed)))
 View == <<st, now, nextId>>
 =============================================================================
